@@ -61,6 +61,8 @@ pub fn gen(ctx: &Ctx, rng: &mut Rng, out: &mut Vec<String>) {
     // size sweeps: one long axis next to short ones (every length up to 130, thorough 400), and 6-8 short axes
     let top = if ctx.tier_thorough { 400 } else { 130 };
     for n in 5..=top { if n % 2 == 1 || n <= 40 || ctx.tier_thorough { shp.push(vec![n, 2]); shp.push(vec![2, n]); if n % 5 == 0 { shp.push(vec![2, n, 3]); } } }
+    // … and a few much longer axes (recursive / block-wise summation schemes only show beyond a few hundred views)
+    for n in [257usize, 258, 300, 401, 513, 640, 1025, 2049] { shp.push(vec![n, 2]); shp.push(vec![3, n]); if n % 2 == 1 { shp.push(vec![2, n, 2]); } }
     let mut wide: Vec<Vec<usize>> = Vec::new();
     for d in 6..=8usize { wide.push(vec![2; d]); wide.push((0..d).map(|k| 1 + (k % 3) % 2 + (k == 1) as usize).collect()); }
     shp.sort(); shp.dedup();
